@@ -491,27 +491,68 @@ def below_expr(prof):
 
 # --------------------------------------------------------------------------- table profiles (round 4)
 
-RIGHT_ROWS_SHAPES = ("{r}._columns[0].countif{r}._columnselse0", "{r}._columns[0].countiflen({r}._columns)>0else0",
-                     "{r}._columns[0].countiflen({r}._columns)else0")
+ROWS_SHAPES = ("{r}._columns[0].countif{r}._columnselse0", "{r}._columns[0].countiflen({r}._columns)>0else0",
+               "{r}._columns[0].countiflen({r}._columns)else0")
+
+
+def _placeholder_args(call, name, other, env):
+    """`ColumnProfile(<name>, <other>.type, <count>, <missing>)` (positional or keyword, nothing else set) -> (count, missing)
+    over `c` / `m` (count / missing of the column on the side that has it), `lr` / `rr` (the two tables' row counts)."""
+    if not (isinstance(call, ast.Call) and ast.unparse(call.func) == "ColumnProfile"):
+        raise KeyError("the stand-in is a ColumnProfile(...)")
+    if len(call.args) > 4:
+        raise KeyError("stand-in: more than four positional arguments")
+    args = {k: v for k, v in zip(("name", "type", "count", "missing"), call.args)}
+    for kw in call.keywords:
+        if kw.arg in args or kw.arg not in ("name", "type", "count", "missing"):
+            raise KeyError("stand-in: argument %s" % kw.arg)
+        args[kw.arg] = kw.value
+    if ast.unparse(args.get("name", ast.Constant(None))) != name or ast.unparse(args.get("type", ast.Constant(None))) != other + ".type":
+        raise KeyError("stand-in: name and type of the column on the other side")
+    penv = dict(env)
+    penv.update({other + ".count": "c", other + ".missing": "m"})
+    zero = ast.Constant(0)
+    return to_lean(args.get("count", zero), penv, mode="field"), to_lean(args.get("missing", zero), penv, mode="field")
+
+
+def _sum_order(stmt, new, name, left_c, right_c):
+    if not (isinstance(stmt, ast.Expr) and isinstance(stmt.value, ast.Call) and ast.unparse(stmt.value.func) == new + ".add_column"
+            and len(stmt.value.args) == 2 and not stmt.value.keywords and ast.unparse(stmt.value.args[1]) == name):
+        raise KeyError("statement in the loop: %s" % ast.unparse(stmt)[:50])
+    e = ast.unparse(stmt.value.args[0]).replace(" ", "")
+    if e == "%s+%s" % (left_c, right_c):
+        return True
+    if e == "%s+%s" % (right_c, left_c):
+        return False
+    raise KeyError("add_column(%s, ...)" % e[:30])
 
 
 def table_add(prof):
-    """`TableProfile.__add__`: the loop over the left table's column names, the two look-ups, the placeholder built for a
-    column the right table lacks — `ColumnProfile(name, left.type, <count>, <missing>)`, nothing else set — and the order of
-    the column sum.  -> (count expression, missing expression, left operand first?) over `lc` / `lm` (the left column's
-    count / missing) and `rr` (the right table's row count: its first column's `count`, 0 without columns)."""
+    """`TableProfile.__add__` walked statement by statement.
+
+    * before the loops: `new = TableProfile()` and the row counts of the two tables (`X._columns[0].count if X._columns else 0`);
+    * first loop, over the LEFT table's column names: the two look-ups, `if not right_column:` -> the stand-in
+      `ColumnProfile(name, left.type, <count>, <missing>)`, `new.add_column(left + right, name)`;
+    * optional second loop, over the RIGHT table's column names: `if name not in self._column_names:` -> look-up of the right column,
+      the stand-in for the left side, `new.add_column(left + right, name)`;
+    * `return new`.
+
+    -> dict with the stand-ins' count / missing expressions, the two sum orders and whether the second loop exists."""
     f = find_function(prof.tree, "__add__", "TableProfile")
     params = [a.arg for a in f.args.args]
     if len(params) != 2 or params[0] != "self":
         raise KeyError("__add__(self, right)")
     right = params[1]
     loops = [s for s in f.body if isinstance(s, ast.For)]
-    if len(loops) != 1 or ast.unparse(loops[0].iter) != "self._column_names" or not isinstance(loops[0].target, ast.Name) or loops[0].orelse:
+    if len(loops) not in (1, 2) or any(not isinstance(l.target, ast.Name) or l.orelse for l in loops):
+        raise KeyError("one or two for-loops over column names")
+    if ast.unparse(loops[0].iter) != "self._column_names":
         raise KeyError("for <name> in self._column_names")
-    name = loops[0].target.id
-    # names bound before the loop: the new table, and possibly the right table's row count
+    i0 = f.body.index(loops[0])
+    if [f.body.index(l) for l in loops] != list(range(i0, i0 + len(loops))):
+        raise KeyError("the loops follow each other")
     env, new = {}, None
-    for s in f.body[: f.body.index(loops[0])]:
+    for s in f.body[:i0]:
         if isinstance(s, ast.Expr) and isinstance(s.value, ast.Constant):
             continue
         if not (isinstance(s, ast.Assign) and len(s.targets) == 1 and isinstance(s.targets[0], ast.Name)):
@@ -519,71 +560,93 @@ def table_add(prof):
         v = ast.unparse(s.value).replace(" ", "")
         if v == "TableProfile()":
             new = s.targets[0].id
-        elif v in [t.format(r=right) for t in RIGHT_ROWS_SHAPES]:
+        elif v in [t.format(r=right) for t in ROWS_SHAPES]:
             env[s.targets[0].id] = "rr"
+        elif v in [t.format(r="self") for t in ROWS_SHAPES]:
+            env[s.targets[0].id] = "lr"
         else:
             raise KeyError("before the loop: %s = %s" % (s.targets[0].id, v[:40]))
-    after = f.body[f.body.index(loops[0]) + 1:]
+    after = f.body[i0 + len(loops):]
     if new is None or len(after) != 1 or not isinstance(after[0], ast.Return) or ast.unparse(after[0].value) != new:
         raise KeyError("new = TableProfile() ... return new")
-    left_c = right_c = None
-    placeholder = None
-    order = None
+
+    # ---- first loop
+    name = loops[0].target.id
+    left_c = right_c = placeholder = order = None
     for s in loops[0].body:
-        if isinstance(s, ast.Assign) and len(s.targets) == 1 and isinstance(s.targets[0], ast.Name):
+        if isinstance(s, ast.Assign) and len(s.targets) == 1 and isinstance(s.targets[0], ast.Name) and placeholder is None and order is None:
             v = ast.unparse(s.value).replace(" ", "")
-            if v == "self.column(%s)" % name and left_c is None and placeholder is None and order is None:
+            if v == "self.column(%s)" % name and left_c is None:
                 left_c = s.targets[0].id
                 continue
-            if v == "%s.column(%s)" % (right, name) and right_c is None and placeholder is None and order is None:
+            if v == "%s.column(%s)" % (right, name) and right_c is None:
                 right_c = s.targets[0].id
                 continue
             raise KeyError("in the loop: %s = %s" % (s.targets[0].id, v[:40]))
         if isinstance(s, ast.If) and right_c and left_c and placeholder is None and order is None and not s.orelse \
                 and ast.unparse(s.test).replace(" ", "") in ("not%s" % right_c, "%sisNone" % right_c) and len(s.body) == 1:
             a = s.body[0]
-            if not (isinstance(a, ast.Assign) and len(a.targets) == 1 and ast.unparse(a.targets[0]) == right_c and isinstance(a.value, ast.Call)
-                    and ast.unparse(a.value.func) == "ColumnProfile"):
-                raise KeyError("the placeholder assignment")
-            call = a.value
-            args = {k: v for k, v in zip(("name", "type", "count", "missing"), call.args)}
-            if len(call.args) > 4:
-                raise KeyError("placeholder: more than four positional arguments")
-            for kw in call.keywords:
-                if kw.arg in args or kw.arg not in ("name", "type", "count", "missing"):
-                    raise KeyError("placeholder: argument %s" % kw.arg)
-                args[kw.arg] = kw.value
-            if ast.unparse(args.get("name", ast.Constant(None))) != name or ast.unparse(args.get("type", ast.Constant(None))) != left_c + ".type":
-                raise KeyError("placeholder: name and type of the left column")
-            penv = dict(env)
-            penv.update({left_c + ".count": "lc", left_c + ".missing": "lm"})
-            zero = ast.Constant(0)
-            placeholder = (to_lean(args.get("count", zero), penv, mode="field"), to_lean(args.get("missing", zero), penv, mode="field"))
+            if not (isinstance(a, ast.Assign) and len(a.targets) == 1 and ast.unparse(a.targets[0]) == right_c):
+                raise KeyError("the stand-in assignment")
+            placeholder = _placeholder_args(a.value, name, left_c, env)
             continue
-        if isinstance(s, ast.Expr) and isinstance(s.value, ast.Call) and ast.unparse(s.value.func) == new + ".add_column" and order is None \
-                and left_c and right_c and len(s.value.args) == 2 and not s.value.keywords and ast.unparse(s.value.args[1]) == name:
-            e = ast.unparse(s.value.args[0]).replace(" ", "")
-            if e == "%s+%s" % (left_c, right_c):
-                order = True
-            elif e == "%s+%s" % (right_c, left_c):
-                order = False
-            else:
-                raise KeyError("add_column(%s, ...)" % e[:30])
+        if order is None and left_c and right_c and placeholder is not None:
+            order = _sum_order(s, new, name, left_c, right_c)
             continue
         raise KeyError("statement in the loop: %s" % ast.unparse(s)[:50])
     if placeholder is None or order is None:
-        raise KeyError("placeholder / add_column not found")
-    return placeholder[0], placeholder[1], order
+        raise KeyError("stand-in / add_column not found")
+    out = {"rc": placeholder[0], "rm": placeholder[1], "first": order, "second": False, "lc": "lr", "lm": "lr", "second_first": True}
+
+    # ---- second loop: the columns only the right table has
+    if len(loops) == 2:
+        lp = loops[1]
+        n2 = lp.target.id
+        if ast.unparse(lp.iter) != right + "._column_names":
+            raise KeyError("second loop: for <name> in <right>._column_names")
+        if not (len(lp.body) == 1 and isinstance(lp.body[0], ast.If) and not lp.body[0].orelse
+                and ast.unparse(lp.body[0].test).replace(" ", "") in ("%snotinself._column_names" % n2, "notself.column(%s)" % n2,
+                                                                       "self.column(%s)isNone" % n2)):
+            raise KeyError("second loop: if <name> not in self._column_names")
+        l2 = r2 = ph2 = ord2 = None
+        for s in lp.body[0].body:
+            if isinstance(s, ast.Assign) and len(s.targets) == 1 and isinstance(s.targets[0], ast.Name) and ord2 is None:
+                v = ast.unparse(s.value).replace(" ", "")
+                if v == "%s.column(%s)" % (right, n2) and r2 is None:
+                    r2 = s.targets[0].id
+                    continue
+                if r2 is not None and ph2 is None and isinstance(s.value, ast.Call):
+                    l2 = s.targets[0].id
+                    ph2 = _placeholder_args(s.value, n2, r2, env)
+                    continue
+                raise KeyError("in the second loop: %s = %s" % (s.targets[0].id, v[:40]))
+            if ord2 is None and l2 and r2:
+                ord2 = _sum_order(s, new, n2, l2, r2)
+                continue
+            raise KeyError("statement in the second loop: %s" % ast.unparse(s)[:50])
+        if ph2 is None or ord2 is None:
+            raise KeyError("second loop: stand-in / add_column not found")
+        out.update({"second": True, "lc": ph2[0], "lm": ph2[1], "second_first": ord2})
+    return out
 
 
 def generate_table(o, prof):
     import re
 
-    def part(i):
+    cache = {}
+
+    def part(key, expr):
         def g():
-            text = table_add(prof)[i]
-            if i < 2:
-                free = set(re.findall(r"[A-Za-z_][A-Za-z0-9_.]*", text)) - {"lc", "lm", "rr"}
+            if "v" not in cache:
+                try:
+                    cache["v"] = table_add(prof)
+                except Exception as e:
+                    cache["v"] = e
+            if isinstance(cache["v"], Exception):
+                raise cache["v"]
+            text = cache["v"][key]
+            if expr:
+                free = set(re.findall(r"[A-Za-z_][A-Za-z0-9_.]*", text)) - {"c", "m", "lr", "rr"}
                 if free:
                     raise KeyError("uses %s" % sorted(free))
                 if set(re.findall(r"(?<![A-Za-z_0-9.])\d+(?![A-Za-z_0-9])", text)) - {"0", "1", "2"}:
@@ -591,14 +654,23 @@ def generate_table(o, prof):
             return text
         return g
 
-    pc = o.item("table_prof.placeholder_count", part(0), "lc")
-    pm = o.item("table_prof.placeholder_missing", part(1), "lc")
-    lf = o.item("table_prof.sum_left_first", part(2), True)
+    rc = o.item("table_prof.placeholder_count", part("rc", True), "rr")
+    rm = o.item("table_prof.placeholder_missing", part("rm", True), "rr")
+    lc = o.item("table_prof.left_placeholder_count", part("lc", True), "lr")
+    lm = o.item("table_prof.left_placeholder_missing", part("lm", True), "lr")
+    lf = o.item("table_prof.sum_left_first", part("first", False), True)
+    sec = o.item("table_prof.keeps_right_only", part("second", False), True)
+    lf2 = o.item("table_prof.right_only_left_first", part("second_first", False), True)
+    b = lambda x: "true" if x else "false"
     o.files["TableProfExpr.lean"] = HEADER + '''/-!
 The glue of `TableProfile.__add__` (`orso/profiler/profiler.py`) above `ColumnProfile.__add__`, lifted from the working tree
 (harness/extractors/c14.py): for every column name of the **left** table the left and the right column are looked up by name;
-a column the right table lacks is replaced by a placeholder `ColumnProfile(name, left.type, <count>, <missing>)` — no bounds,
-no histogram — and the two are added.
+a column the right table lacks is replaced by a stand-in `ColumnProfile(name, left.type, <count>, <missing>)` — no bounds,
+no histogram — and the two are added.  A second loop (when the source has one) runs over the **right** table's names and adds
+every column the left table lacks to a stand-in for the left side.
+
+In the expressions `c` / `m` are `count` / `missing` of the column on the side that has it, `lr` / `rr` the row counts the left /
+right table reports (`X._columns[0].count if X._columns else 0`).
 -/
 namespace Gen.TableProf
 set_option linter.unusedVariables false
@@ -606,19 +678,30 @@ set_option linter.unusedVariables false
 section
 variable {K : Type} [Add K] [Sub K] [Mul K] [Div K] [OfNat K 0] [OfNat K 1] [OfNat K 2]
 
-/-- `count` of the placeholder: `lc` / `lm` = the left column's `count` / `missing`, `rr` = the right table's row count
-(`right._columns[0].count if right._columns else 0`) -/
-def placeholderCount (lc lm rr : K) : K := %s
+/-- `count` of the stand-in for a column the RIGHT table lacks -/
+def placeholderCount (c m lr rr : K) : K := %s
 
-/-- `missing` of the placeholder -/
-def placeholderMissing (lc lm rr : K) : K := %s
+/-- `missing` of that stand-in -/
+def placeholderMissing (c m lr rr : K) : K := %s
+
+/-- `count` of the stand-in for a column the LEFT table lacks (second loop) -/
+def leftPlaceholderCount (c m lr rr : K) : K := %s
+
+/-- `missing` of that stand-in -/
+def leftPlaceholderMissing (c m lr rr : K) : K := %s
 end
 
-/-- `new.add_column(left_column + right_column, name)`: the left column is the left operand of the column sum -/
+/-- first loop: `new.add_column(left_column + right_column, name)` — the left column is the left operand of the column sum -/
 def sumLeftFirst : Bool := %s
 
+/-- the source has the second loop: columns only the right table has are carried into the sum, after the left table's -/
+def keepsRightOnly : Bool := %s
+
+/-- second loop: `new.add_column(<stand-in> + right_column, name)` — the stand-in is the left operand -/
+def rightOnlyLeftFirst : Bool := %s
+
 end Gen.TableProf
-''' % (pc, pm, "true" if lf else "false")
+''' % (rc, rm, lc, lm, b(lf), b(sec), b(lf2))
 
 
 def generate(o):
